@@ -35,6 +35,12 @@ CHECKS={
  'C09':dict(technique='differential property-based testing: a generated single-file program against random partitions of its declarations into 2-5 files with randomly chosen import/export styles, plus decoys and negative variants',
    text='Exploration over layouts (15 style kinds counted in the evidence); the single-file program is the oracle for validate results (default/strict) and hash256; a removed file must yield a diagnostic.',
    note='Trusted: the layout generator only moves declarations and rewrites identifiers; in-memory module resolver.', ref='DESIGN.md section 2 C09'),
+ 'C10':dict(technique='property-based testing over processes: each generated project is compiled six times (same process twice, three fresh OS processes with new hash seeds, shuffled eager registration orders) and outputs are compared byte for byte',
+   text='Exploration over projects that iterate symbol tables (namespace imports with many exports, export-star, multi-file layouts, wild diagnostics-heavy inputs); the oracle is byte equality of emitted code and serialized diagnostics.',
+   note='Trusted: hash seeds are sampled (4 processes per project).', ref='DESIGN.md section 2 C10'),
+ 'C14':dict(technique='model-based (stateful) property-based testing: generated edit/rebuild histories run against one long-lived session of the real beff_wasm crate (beff_verif hook) and compared, at every rebuild, with a from-scratch run on the current files',
+   text='Exploration over histories of up to 24 operations on 2-5 files with valid, unresolvable, syntactically broken, missing-export and late-created-file variants; the reference model is a fresh session.',
+   note='Trusted: the harness plays the TypeScript driver (write, update_file_content for watched files, rebuild); the hook only replaces the JavaScript host imports.', ref='DESIGN.md section 2 C14'),
  'C11':dict(technique='property-based testing: strict-mode verdicts of generated validators vs reference strict membership, with undeclared keys injected at random object positions',
    text='Exploration weighted to intersections/unions/nesting/records; oracle = reference "no undeclared key at any object position" + strict implies default.',
    note='Trusted: reference declared-key computation (intersection = union of members\' keys, union = matching branch, index signature admits all keys).', ref='DESIGN.md section 2 C11'),
